@@ -14,6 +14,10 @@ import (
 func init() {
 	Registry["C02"] = runC02
 	perProgram["C02"] = func(r *explore.Run, p *prog) {
+		if strings.HasPrefix(p.Sig, c02HistSigPrefix) {
+			c02HistoryReplay(r, p.Sig)
+			return
+		}
 		c02Program(r, p, 1, nil)
 		if c02WantsExtra(p) {
 			c02ProgramConfigs(r, p, c02ExtraConfigs(false), nil)
